@@ -28,6 +28,19 @@ CHECKS["C01"] = dict(
     ref="4/C01, 3, appendix A",
 )
 
+CHECKS["C13"] = dict(
+    technique="sys.addaudithook recorder of open/scandir/listdir during every loader call + canary files outside the roots + error-class monitor, over an exhaustively enumerated path grammar",
+    text="Exploration, exhaustive for names of <= 4 grammar tokens: ~1e6 (quick) / ~1.2e7 (thorough) real loader calls (5 loader kinds, 10 configurations, Python and include/render/extends access, sync and async) are observed by an audit hook; every file opened must lie inside a configured root, no canary content may be returned, and absolute / parent-directory / outside-resolving names must raise TemplateNotFoundError.",
+    note="Trusted: CPython audit events (os.stat probes raise none, so existence checks of outside paths are not observed); POSIX; symlinks planted inside a root are out of scope.",
+    ref="4/C13",
+)
+CHECKS["C18"] = dict(
+    technique="metamorphic runtime oracle on real renders: all/sampled assignments of whitespace-control markers x default_trim x blank-block suppression compared modulo whitespace with the marker-free render; verbatim text checked against the reference interpreter",
+    text="Exploration: ~4e5 (quick) real renders; for each generated program every assignment of {none,-,~,+} to its marker positions (exhaustive when <= 6 positions, sampled beyond) under default_trim in {+,-,~} and suppression on/off must equal the marker-free output once str.isspace() characters are deleted; with no trimming in force the output must equal the reference text character for character.",
+    note="Trusted: the emitter's marker placement and the shared generator profile (expressions never inspect captured text; captured variables are only printed).",
+    ref="4/C18",
+)
+
 NOT_YET = {}
 
 def main():
